@@ -25,6 +25,12 @@ def glog_record(s0, s, key, kwargs, kind):
     }
 
 
+def untouched(s0, s):
+    """Engine-visible state and both logs exactly as before."""
+    return z3.And(qh(s) == qh(s0), qt(s) == qt(s0), qarr(s) == qarr(s0), mstate(s) == mstate(s0),
+                  s.g("ntrig") == s0.g("ntrig"), s.g("ng") == s0.g("ng"), s.g("ncb") == s0.g("ncb"))
+
+
 def nothing_happens(s0, s):
     """No callback ran: engine-visible state is exactly as before (apart from the log record)."""
     return z3.And(qh(s) == qh(s0), qt(s) == qt(s0), qarr(s) == qarr(s0), mstate(s) == mstate(s0),
@@ -46,6 +52,7 @@ class RegCall(Contract):
     def pre(self, s, a):
         f = dict(wf_world(s))
         f["self-is-registry"] = a.self.e == W.REG
+        f["registry-wf"] = wf_registry(s)
         f["rtc-implies-lock-held"] = z3.Implies(rtc(s), locked(s))
         f["kwargs-is-not-the-registry"] = a.kwargs.e != W.REGD
         return f
@@ -141,13 +148,9 @@ class AsyncRegAll(AsyncBinding, RegAll):
 from pyvc.core import A_II, ClassModel, MethodSpec, declare_ghost  # noqa: E402
 from .model import C, INL  # noqa: E402
 
-declare_ghost("ncb", Int)  # callback-level log cursor: one record per CallbackWrapper invocation
-declare_ghost("cb_who", A_II)  # which wrapper
-declare_ghost("cb_ms", A_II)  # model state value when it was invoked
-declare_ghost("cb_ks", A_II)  # kwargs['state'] when it was invoked
+from .model import CB_LOG, exec_wf, wrapper_wf, wf_registry  # noqa: E402
 
-CB_LOG = ["ghost.ncb", "ghost.cb_who", "ghost.cb_ms", "ghost.cb_ks"]
-CB_MODIFIES = ENV_MODIFIES + CB_LOG
+CB_MODIFIES = ENV_MODIFIES
 
 # oracles of user code, indexed by the invocation number (every invocation may behave differently)
 CB_RAW = z3.Function("CB_RAW", Int, Int)  # what invocation #c of a user callable returned
@@ -173,6 +176,9 @@ ClassModel(
             "unique_key": "str", "expected_value": "Val"},
     methods={"call": C(CBQ + "CallbackWrapper.call"), "__call__": C(CBQ + "CallbackWrapper.__call__")},
 )
+from pyvc.models import ctor_from_init  # noqa: E402
+from pyvc.core import CLASSES as _CL  # noqa: E402
+_CL["CallbacksExecutor"].ctor = ctor_from_init("statemachine.callbacks:CallbacksExecutor", "CallbacksExecutor")
 ClassModel("UserCallable", methods={"__call__": C("user:callback")})
 ClassModel("CondCallable", methods={"__call__": C("user:condition")})
 ClassModel("CallbackSpec", fields={"is_convention": "bool", "expected_value": "Val", "cond": "Opt[CondCallable]",
@@ -276,13 +282,6 @@ def conv(s, w, v):
     return z3.If(exp == NONE, v, boxb(truthy(v) == (exp == TRUE_OBJ)))
 
 
-def wrapper_wf(s, w):
-    from pyvc.core import TRUE_OBJ, FALSE_OBJ
-    exp = s.sel("CallbackWrapper.expected_value", w)
-    return z3.And(z3.Or(exp == NONE, exp == TRUE_OBJ, exp == FALSE_OBJ),
-                  s.sel("CallbackWrapper._callback", w) >= FIRST_ADDR, s.sel("CallbackWrapper.condition", w) >= FIRST_ADDR)
-
-
 class WrapperCall(Contract):
     """CallbackWrapper.call / __call__ (C01 expected_value, C02 one log record per invocation,
     C05 awaitable results are awaited before use, C14 the value is the callback's own)."""
@@ -360,46 +359,44 @@ def exec_items(s, ex):
     return (lambda j: z3.Select(arr, h + j)), t - h, dq
 
 
-def exec_wf(s, ex):
-    item, n, dq = exec_items(s, ex)
-    j = z3.Const("j!ew", Int)
-    return z3.And(dq != W.Q, dq >= FIRST_ADDR, dq < s["ghost.alloc"], n >= 0,
-                  z3.ForAll([j], z3.Implies(z3.And(j >= 0, j < n), z3.And(
-                      item(j) >= FIRST_ADDR, item(j) < s["ghost.alloc"], wrapper_wf(s, item(j))))))
+def exec_abs(s, ex):
+    """(arr, head, tail) of the executor's deque: items are arr[p] for head <= p < tail."""
+    dq = s.sel("CallbacksExecutor.items", ex)
+    return s.sel("deque.arr", dq), s.sel("deque.head", dq), s.sel("deque.tail", dq)
 
 
 def cnt_definition(s, ex, ev):
-    """CNT(ex, ev, j) = number of wrappers among the first j whose condition holds for ev."""
-    item, n, _ = exec_items(s, ex)
-    j = z3.Const("j!cnt", Int)
-    cj = COND(s.sel("CallbackWrapper.condition", item(j - 1)), ev)
-    j1, j2 = z3.Const("j1!cnt", Int), z3.Const("j2!cnt", Int)
+    """CNT(ex, ev, p) = number of wrappers at deque positions [head, p) whose condition holds for ev."""
+    arr, h, t = exec_abs(s, ex)
+    p = z3.Const("p!cnt", Int)
+    cp = COND(s.sel("CallbackWrapper.condition", z3.Select(arr, p)), ev)
+    p1, p2 = z3.Const("p1!cnt", Int), z3.Const("p2!cnt", Int)
     return z3.And(
-        CNT(ex, ev, 0) == 0,
-        z3.ForAll([j], z3.Implies(z3.And(j >= 1, j <= n),
-                                  CNT(ex, ev, j) == CNT(ex, ev, j - 1) + z3.If(cj, 1, 0)),
-                  patterns=[CNT(ex, ev, j)]),
+        CNT(ex, ev, h) == 0,
+        z3.ForAll([p], z3.Implies(z3.And(p >= h, p < t),
+                                  CNT(ex, ev, p + 1) == CNT(ex, ev, p) + z3.If(cp, 1, 0)),
+                  patterns=[CNT(ex, ev, p)]),
         # monotonicity: an inductive consequence of the definition (lemma `cnt-monotone`, whose
         # base and step cases are discharged separately, see lemma_cnt_monotone)
-        z3.ForAll([j1, j2], z3.Implies(z3.And(0 <= j1, j1 <= j2, j2 <= n), CNT(ex, ev, j1) <= CNT(ex, ev, j2)),
-                  patterns=[z3.MultiPattern(CNT(ex, ev, j1), CNT(ex, ev, j2))]))
+        z3.ForAll([p1, p2], z3.Implies(z3.And(h <= p1, p1 <= p2, p2 <= t), CNT(ex, ev, p1) <= CNT(ex, ev, p2)),
+                  patterns=[z3.MultiPattern(CNT(ex, ev, p1), CNT(ex, ev, p2))]))
 
 
 def lemma_cnt_monotone():
-    """Induction on j2 for: 0 <= j1 <= j2 <= n  =>  CNT(j1) <= CNT(j2), from the recursive
-    definition alone (base j2 = j1; step j2 -> j2+1)."""
+    """Induction on p2 for: h <= p1 <= p2 <= t  =>  CNT(p1) <= CNT(p2), from the recursive
+    definition alone (base p2 = p1; step p2 -> p2+1)."""
     from pyvc.core import Obligation
-    ex, ev, n = z3.Ints("ex!l ev!l n!l")
-    j, j1, j2 = z3.Ints("j!l j1!l j2!l")
+    ex, ev, h, t = z3.Ints("ex!l ev!l h!l t!l")
+    p, p1, p2 = z3.Ints("p!l p1!l p2!l")
     cond = z3.Function("applicable!l", Int, Bool)
-    defn = z3.ForAll([j], z3.Implies(z3.And(j >= 1, j <= n),
-                                     CNT(ex, ev, j) == CNT(ex, ev, j - 1) + z3.If(cond(j - 1), 1, 0)),
-                     patterns=[CNT(ex, ev, j)])
-    base = Obligation("lemma:cnt-monotone/base", "lemma", "lemma", [defn, j1 >= 0, j1 <= n],
-                      CNT(ex, ev, j1) <= CNT(ex, ev, j1))
+    defn = z3.ForAll([p], z3.Implies(z3.And(p >= h, p < t),
+                                     CNT(ex, ev, p + 1) == CNT(ex, ev, p) + z3.If(cond(p), 1, 0)),
+                     patterns=[CNT(ex, ev, p)])
+    base = Obligation("lemma:cnt-monotone/base", "lemma", "lemma", [defn, p1 >= h, p1 <= t],
+                      CNT(ex, ev, p1) <= CNT(ex, ev, p1))
     step = Obligation("lemma:cnt-monotone/step", "lemma", "lemma",
-                      [defn, 0 <= j1, j1 <= j2, j2 + 1 <= n, CNT(ex, ev, j1) <= CNT(ex, ev, j2)],
-                      CNT(ex, ev, j1) <= CNT(ex, ev, j2 + 1))
+                      [defn, h <= p1, p1 <= p2, p2 + 1 <= t, CNT(ex, ev, p1) <= CNT(ex, ev, p2)],
+                      CNT(ex, ev, p1) <= CNT(ex, ev, p2 + 1))
     return [base, step]
 
 
@@ -427,18 +424,20 @@ class ExecCall(Contract):
     def _applied(self, s0, s, a, upto, lst):
         """Wrappers among the first `upto` whose condition holds were each invoked once, in order,
         seeing the state of entry; `lst` holds their values at the matching positions."""
-        item, n, _ = exec_items(s0, a.self.e)
+        arr, h, t = exec_abs(s0, a.self.e)
         ev = kw_event(s0, a.kwargs)
         c0 = s0.g("ncb")
-        j = z3.Const("j!ap", Int)
-        pos = CNT(a.self.e, ev, j)
-        applicable = COND(s0.sel("CallbackWrapper.condition", item(j)), ev)
-        facts = [z3.Select(s.g("cb_who"), c0 + pos) == item(j),
+        p = z3.Const("p!ap", Int)
+        w = z3.Select(arr, p)
+        pos = CNT(a.self.e, ev, p)
+        applicable = COND(s0.sel("CallbackWrapper.condition", w), ev)
+        facts = [z3.Select(s.g("cb_who"), c0 + pos) == w,
                  z3.Select(s.g("cb_ms"), c0 + pos) == mstate(s0),
                  z3.Select(s.g("cb_ks"), c0 + pos) == kw_state(s0, a.kwargs)]
         if lst is not None:
-            facts.append(z3.Select(s.sel("list.arr", lst), pos) == conv(s0, item(j), CB_FINAL(c0 + pos)))
-        return z3.ForAll([j], z3.Implies(z3.And(j >= 0, j < upto, applicable), z3.And(*facts)))
+            facts.append(z3.Select(s.sel("list.arr", lst), pos) == conv(s0, w, CB_FINAL(c0 + pos)))
+        return z3.ForAll([p], z3.Implies(z3.And(p >= h, p < h + upto, applicable), z3.And(*facts)),
+                         patterns=[CNT(a.self.e, ev, p)])
 
     def post(self, s0, s, a, r):
         item, n, _ = exec_items(s0, a.self.e)
@@ -446,7 +445,7 @@ class ExecCall(Contract):
         c0 = s0.g("ncb")
         rl = z3.And(rtc(s0), locked(s0))
         k = z3.Const("k!ec", Int)
-        m = CNT(a.self.e, ev, n)
+        m = CNT(a.self.e, ev, exec_abs(s0, a.self.e)[2])
         f = dict(env_effect(s0, s))
         f["cb-log-prefix-kept"] = cb_log_prefix_kept(s0, s)
         f["result:fresh-list"] = z3.And(r.e >= s0["ghost.alloc"], r.e < s["ghost.alloc"], s.sel("list.len", r) >= 0)
@@ -457,12 +456,15 @@ class ExecCall(Contract):
         f["C02,C12|rtc:in-executor-order-with-entry-state"] = z3.Implies(rl, self._applied(s0, s, a, n, None))
         f["C14|rtc:result-is-their-values-in-order"] = z3.Implies(rl, z3.And(
             s.sel("list.len", r) == m, self._applied(s0, s, a, n, r.e)))
+        f["C11|empty-executor:nothing-happens"] = z3.Implies(n == 0, z3.And(
+            s.sel("list.len", r) == 0, untouched(s0, s)))
         return f
 
     def exc_post(self, s0, s, a, x):
         f = dict(env_effect(s0, s))
         f["cb-log-prefix-kept"] = cb_log_prefix_kept(s0, s)
         f["rtc:no-group-record"] = z3.Implies(z3.And(rtc(s0), locked(s0)), s.g("ng") == s0.g("ng"))
+        f["C11|empty-executor:cannot-raise"] = exec_items(s0, a.self.e)[1] != 0
         return f
 
     def _inv(self, s0, s, a, l):
@@ -471,7 +473,7 @@ class ExecCall(Contract):
         rl = z3.And(rtc(s0), locked(s0))
         acc = getattr(l, "__acc0").e
         k = z3.Const("k!ei", Int)
-        ci = CNT(a.self.e, ev, l.i)
+        ci = CNT(a.self.e, ev, exec_abs(s0, a.self.e)[1] + l.i)
         f = dict(env_effect(s0, s))
         f["cb-log-prefix-kept"] = cb_log_prefix_kept(s0, s)
         f["count-bounds"] = z3.And(ci >= 0, ci <= l.i)
@@ -483,6 +485,8 @@ class ExecCall(Contract):
         f["rtc:records-in-order"] = z3.Implies(rl, self._applied(s0, s, a, l.i, None))
         f["rtc:values-in-order"] = z3.Implies(rl, self._applied(s0, s, a, l.i, acc))
         f["lock-still-held"] = z3.Implies(rtc(s0), locked(s) == locked(s0))
+        f["nothing-happens-before-the-first-callback"] = z3.Implies(l.i == 0, z3.And(
+            s.sel("list.len", acc) == 0, untouched(s0, s)))
         return f
 
     @property
@@ -533,6 +537,7 @@ class ExecAll(Contract):
         f["cb-log-prefix-kept"] = cb_log_prefix_kept(s0, s)
         f["C01,C08|rtc:enabled-iff-every-guard-gives-its-expected-verdict"] = z3.Implies(
             rl, r.e == self._all_pass(s0, a, n))
+        f["C11|empty-executor:true-and-nothing-happens"] = z3.Implies(n == 0, z3.And(r.e, untouched(s0, s)))
         f["C01,C02|rtc:evaluated-in-order-up-to-first-failure"] = z3.Implies(rl, z3.And(
             m >= 0, m <= n, self._evaluated(s0, s, a, m), self._all_pass(s0, a, m - 1),
             z3.Implies(r.e, m == n), z3.Implies(z3.Not(r.e), z3.And(m >= 1, z3.Not(self.verdict(s0, a, m - 1)))),
@@ -549,6 +554,7 @@ class ExecAll(Contract):
         f["rtc:all-so-far-passed"] = z3.Implies(rl, z3.And(
             s.g("ncb") == c0 + l.i, s.g("ng") == s0.g("ng"), self._evaluated(s0, s, a, l.i), self._all_pass(s0, a, l.i)))
         f["lock-still-held"] = z3.Implies(rtc(s0), locked(s) == locked(s0))
+        f["nothing-happens-before-the-first-guard"] = z3.Implies(l.i == 0, untouched(s0, s))
         return f
 
     @property
